@@ -96,7 +96,8 @@ def session(rng, cid, n, aw):
     reqs.append({"op": "BARRIER"})
     # everybody builds the same two generated images at the same moment (directory scan, PARAM.SFO, encoders)
     reqs += [{"op": "OPEN_FILE", "path": "/***PS3***/pub/game"}, {"op": "READ_FILE", "limit": 2048, "off": 2048},
-             {"op": "OPEN_FILE", "path": "/***DVD***/pub/img"}, {"op": "READ_FILE", "limit": 4096, "off": 32768}]
+             {"op": "OPEN_FILE", "path": "/***DVD***/pub/img"}, {"op": "READ_FILE", "limit": 65536, "off": 40960},      # (reaches the member files)
+             {"op": "READ_FILE_CRITICAL", "limit": 4096, "off": 61440}]
     reqs.append({"op": "OPEN_FILE", "path": "/pub/%s.bin" % f})
     for _ in range(30):
         want = rng.choice([65536, 70000, 131072]) if f == "big" else rng.choice([4096, 65536])
